@@ -8,6 +8,7 @@ package main
 import (
 	"errors"
 	"fmt"
+	"reflect"
 	"sort"
 	"strings"
 	"time"
@@ -127,7 +128,7 @@ func (w *world) newTask(kind int, gate *simrt.Chan[struct{}]) *simTask {
 		t.sleep = []time.Duration{100 * time.Microsecond, time.Millisecond, 20 * time.Millisecond}[simrt.Choose("task.sleep", 3)]
 	}
 	if kind == kPanic || kind == kSleepPanic || kind == kGatePanic {
-		switch simrt.Choose("task.pval", 6) {
+		switch simrt.Choose("task.pval", 9) {
 		case 0:
 			t.pv = fmt.Sprintf("panic-%d", t.id)
 		case 1:
@@ -140,6 +141,15 @@ func (w *world) newTask(kind int, gate *simrt.Chan[struct{}]) *simTask {
 			t.pv = &pval{t.id}
 		case 5:
 			t.pv = error(&perr{t.id})
+		case 6: // values of uncomparable dynamic type
+			t.pv = []int{t.id, 6}
+		case 7:
+			t.pv = map[string]int{"task": t.id}
+		case 8:
+			t.pv = struct {
+				ID   int
+				Tags []string
+			}{t.id, []string{"x"}}
 		}
 	}
 	w.tasks = append(w.tasks, t)
@@ -301,7 +311,9 @@ func (w *world) main() {
 	if w.live() {
 		for _, t := range pins {
 			if t.pushErr == nil && t.startCount == 0 {
+				// both "eventually started" (C06) and "started as soon as any worker is idle" (C08)
 				w.violate("C06", "accepted-not-started", fmt.Sprintf("gated task %d accepted on lane %d not started although all workers were idle", t.id, t.lane), "accepted-not-started idle")
+				w.violate("C08", "head-of-line", fmt.Sprintf("gated task %d accepted on lane %d is not started although workers are idle (%d of %d busy)", t.id, t.lane, w.running, w.lanes), "head-of-line")
 			}
 		}
 	}
@@ -544,6 +556,17 @@ func (w *world) startWaiter() {
 	})
 }
 
+// samePanic compares two panic values; values of uncomparable type (slices,
+// maps, structs holding them) carry the task id and are compared deeply.
+func samePanic(a, b any) (eq bool) {
+	defer func() {
+		if recover() != nil {
+			eq = reflect.DeepEqual(a, b)
+		}
+	}()
+	return a == b
+}
+
 func (w *world) pendingAccepted() int {
 	n := 0
 	for _, t := range w.tasks {
@@ -577,7 +600,7 @@ func (w *world) checkLastPanic() {
 		return
 	}
 	for _, v := range w.raised {
-		if v == lp {
+		if samePanic(v, lp) {
 			return
 		}
 	}
